@@ -1457,6 +1457,10 @@ func (c *Client) sendSingleMsg(client *smtp.Client, message *Msg) error {
 	}
 	_, err = message.WriteTo(writer)
 	if err != nil {
+		// Only a part of the message has been written. The DATA writer would terminate the
+		// content with the next command and the server would accept the fragment as a
+		// complete message. Dropping the connection is the only way to abort a DATA command.
+		_ = client.Close()
 		return &SendError{
 			Reason: ErrWriteContent, errlist: []error{err}, isTemp: isTempError(err),
 			affectedMsg: message, errcode: errorCode(err),
